@@ -352,7 +352,7 @@ func vc22PolLE(a, b map[string]any) bool {
 }
 
 func TestVerif_C22(t *testing.T) {
-	res := kit.NewResult("one case = one application of the real data.ApplyPolicy to (snapshot list, policy): lists = all multisets of <= 2 of the 24 table instants, sampled multisets of 3..6 table instants (ties, future instants), random 7..12-snapshot lists with minute timestamps in UTC / a fixed non-UTC zone; policies = every single-rule policy (6 counts x {1,2,3,5,unlimited}, 6 duration rules x 10 durations, 5 keep-tag sets) and random combinations; plus pairs (policy, raised policy) for monotonicity; distinct by (timestamps+tags, policy); non-trivial when the policy keeps some and removes some snapshots")
+	res := kit.NewResult("one case = one application of the real data.ApplyPolicy to (snapshot list, policy): lists = all multisets of <= 2 of the 24 table instants (every single-rule policy), all multisets of 3 table instants (calendar count rules; quick tier: every 6th by seed), sampled multisets of 3..6 table instants (ties, future instants), random 7..12-snapshot lists with minute timestamps in UTC / a fixed non-UTC zone; policies = every single-rule policy (6 counts x {1,2,3,5,unlimited}, 6 duration rules x 10 durations, 5 keep-tag sets) and random combinations; plus pairs (policy, raised policy) for monotonicity; distinct by (timestamps+tags, policy); non-trivial when the policy keeps some and removes some snapshots")
 	defer res.Save("")
 	recs := kit.NewNDJSON("recs.ndjson")
 	defer recs.Close()
@@ -441,6 +441,32 @@ func TestVerif_C22(t *testing.T) {
 			}
 			if o, ok := emit(in, p, "small_lists"); ok && n%7 == 0 {
 				mono(in, p, o)
+			}
+		}
+	}
+
+	// ---- A3: all multisets of 3 table instants x calendar count rules (a pair can hide a wrong period
+	// key behind the "oldest snapshot" rule; a third, older snapshot cannot)
+	strideA3 := kit.Pick(6, 1)
+	countsA3 := []int{2, 3}
+	if kit.Thorough() {
+		countsA3 = []int{1, 2, 3, -1}
+	}
+	for a := range inst {
+		for b := a; b < len(inst); b++ {
+			for c := b; c < len(inst); c++ {
+				in := []vc22Snap{mk(b, tagsets[(a+c)%4]), mk(a, tagsets[b%4]), mk(c, tagsets[(a+b)%4])}
+				for bk := 1; bk < 6; bk++ {
+					for _, cn := range countsA3 {
+						n++
+						if (n+int(kit.Seed()))%strideA3 != 0 {
+							continue
+						}
+						var p vc22Pol
+						p.C[bk] = cn
+						emit(in, p, "triples")
+					}
+				}
 			}
 		}
 	}
